@@ -65,13 +65,18 @@ package nlp
 //@   invariant vocabOK(s, len(s.idf)) && fresh(s.idf) && len(documents) == len(s.commands) && fresh(documents) && s.commands == old(s.commands) && len(s.commandTF) == len(s.commands) && fresh(s.commandTF) && len(s.commandNorms) == len(s.commands) && fresh(s.commandNorms) && 0 <= i && i < len(documents)
 //@   invariant termCounts != nil && fresh(termCounts) && (forall k int :: (k in termCounts) ==> 0 <= k && k < len(s.idf)) && s.commandTF[i] != nil && fresh(s.commandTF[i])
 
+// C02: equal similarities are ranked by command index - the comparator leaves no tie to the
+// sorting algorithm (results are appended in index order, so the indices are distinct).
 //@ func (*TFIDFSearcher).Search
+//@   opt sort-total yes
 //@ loop 1
 //@   invariant queryTermCounts != nil && fresh(queryTermCounts) && queryVector != nil && fresh(queryVector) && queryVector != queryTermCounts && (forall k int :: (k in queryTermCounts) ==> 0 <= k && k < len(s.idf))
 //@ loop 2
 //@   invariant queryTermCounts != nil && fresh(queryTermCounts) && queryVector != nil && fresh(queryVector) && (forall k int :: (k in queryTermCounts) ==> 0 <= k && k < len(s.idf))
 //@ loop 3
 //@   invariant forall k int :: 0 <= k && k < len(results) ==> results[k].Similarity > 0.0 && 0 <= results[k].CommandIndex && results[k].CommandIndex < len(s.commands)
+//@   invariant (cap(results) == 0 || fresh(results)) && (forall k int :: 0 <= k && k < len(results) ==> results[k].CommandIndex < $i)
+//@   invariant forall a, b int :: 0 <= a && a < b && b < len(results) ==> results[a].CommandIndex < results[b].CommandIndex
 
 // removeDuplicates (C06): a fresh list, without duplicates, with exactly the input's elements.
 //@ func removeDuplicates
